@@ -1,6 +1,7 @@
 package mainchain
 
 import (
+	"bytes"
 	"crypto/sha256"
 	"encoding/hex"
 	"encoding/json"
@@ -32,6 +33,7 @@ type VStep struct {
 	Payee string   `json:"payee"`
 	Amt   int64    `json:"amt"`
 	Gap   int      `json:"gap"`
+	X     X        `json:"x,omitempty"` // shapes of arguments the Spec ignores (see shapes_test.go)
 }
 
 // VScenario is a sequence of steps on a fresh deployment with N stored Alphabet keys.
@@ -42,6 +44,8 @@ type VScenario struct {
 	// StrangerCfg: keep setConfig invocations that carry no Alphabet witness. They are not rejected by the
 	// code today, which ends the decisive part of a trace, so only a share of the scenarios contains them.
 	StrangerCfg bool `json:"strangerCfg"`
+	// X: scenario-level shapes: byte strings behind the model ids / config keys / config values
+	X X `json:"x,omitempty"`
 }
 
 const (
@@ -93,17 +97,17 @@ func newVWorld(t *testing.T, sc *VScenario, seed int64) *vworld {
 		w.payN.reg(p, c.NewUser(p, 0).ScriptHash().BytesBE())
 	}
 	for i := 1; i <= 3; i++ {
-		w.idN.reg("i"+strconv.Itoa(i), []byte("id-"+strconv.Itoa(i)))
+		w.idN.reg("i"+strconv.Itoa(i), idBytes(sc.X["ids"], i-1, "id-"+strconv.Itoa(i)))
 	}
 	for _, cn := range voteCands {
 		h := sha256.Sum256(append(append([]byte{}, chain.Pub(w.sg[cn])...), []byte("delete")...))
 		w.idN.reg("del:"+cn, h[:])
 	}
-	w.cfgKN.reg("ka", []byte("keyA"))
-	w.cfgKN.reg("kb", []byte("keyB"))
+	w.cfgKN.reg("ka", cfgKeyBytes(sc.X["keys"], "ka"))
+	w.cfgKN.reg("kb", cfgKeyBytes(sc.X["keys"], "kb"))
 	w.cfgKN.reg("empty", []byte{})
-	w.cfgVN.reg("v1", []byte("val-1"))
-	w.cfgVN.reg("v2", []byte("val-2"))
+	w.cfgVN.reg("v1", cfgValBytes(sc.X["vals"], "v1"))
+	w.cfgVN.reg("v2", cfgValBytes(sc.X["vals"], "v2"))
 
 	ctr := c.Compile("neofs")
 	c.Deploy(ctr, []any{true, util.Uint160{1, 2, 3}, pubs, []any{"InnerRingCandidateFee", int64(0)}})
@@ -246,7 +250,7 @@ func (w *vworld) tx(st VStep) *transaction.Transaction {
 	case "cheque":
 		u, err := util.Uint160DecodeBytesBE(w.payN.val(w.t, st.Payee))
 		require.NoError(w.t, err)
-		return w.c.Tx(w.neofs, sg, "cheque", w.idN.val(w.t, st.ID), u, st.Amt, []byte("lock"))
+		return w.c.Tx(w.neofs, sg, "cheque", w.idN.val(w.t, st.ID), u, st.Amt, lockArg(st.X["lock"]))
 	case "alphabetUpdate":
 		lst := []any{}
 		for _, k := range st.Lst {
@@ -259,6 +263,13 @@ func (w *vworld) tx(st VStep) *transaction.Transaction {
 		return w.c.Tx(w.neofs, sg, "innerRingCandidateRemove", w.keyN.val(w.t, st.Cand))
 	case "candAdd":
 		return w.c.Tx(w.neofs, sg, "innerRingCandidateAdd", w.keyN.val(w.t, st.Cand))
+	case "candBad": // a candidate key of a wrong length (CheckWitness faults on it)
+		n, _ := strconv.Atoi(st.X["len"])
+		m := "innerRingCandidateRemove"
+		if st.X["op"] == "add" {
+			m = "innerRingCandidateAdd"
+		}
+		return w.c.Tx(w.neofs, sg, m, bytes.Repeat([]byte{2}, n))
 	}
 	w.t.Fatalf("unknown act %q", st.Act)
 	return nil
@@ -313,12 +324,30 @@ func orNil(s string) string {
 }
 
 func runVoteScenario(t *testing.T, rec *chain.Recorder, idx int, sc *VScenario, seed int64) {
+	if sc.X == nil {
+		r := shapeRand(seed, idx, -1)
+		sc.X = X{"ids": pickS(r, "plain", "plain", "prefix", "long", "hashlike"), "keys": pickS(r, "plain", "plain", "prefix", "long", "tiny"),
+			"vals": pickS(r, "plain", "plain", "tiny", "long")}
+	}
+	for i := range sc.Steps {
+		if sc.Steps[i].X == nil {
+			r := shapeRand(seed, idx, i)
+			switch sc.Steps[i].Act {
+			case "cheque":
+				sc.Steps[i].X = X{"lock": lockShapes[r.Intn(len(lockShapes))]}
+			case "candBad":
+				sc.Steps[i].X = X{"len": pickS(r, "0", "1", "32", "34", "65"), "op": pickS(r, "add", "remove")}
+			default:
+				sc.Steps[i].X = X{}
+			}
+		}
+	}
 	w := newVWorld(t, sc, seed+int64(idx))
 	obs := w.observeFull()
 	w.lastH = int64(w.c.Height()) - 1
 	rec.Emit(chain.Rec{"t": idx, "act": "reset", "S": []string{}, "id": "nil", "key": "nil", "val": "nil", "lst": []string{},
 		"cand": "nil", "payee": "nil", "amt": 0, "gap": 0, "h": w.lastH, "res": "HALT", "ntf": []any{}, "obs": obs, "bad": []string{},
-		"n": sc.N, "src": sc.Src, "strangerCfg": sc.StrangerCfg})
+		"n": sc.N, "src": sc.Src, "strangerCfg": sc.StrangerCfg, "x": sc.X})
 	steps := sc.Steps
 	for i := 0; i < len(steps); {
 		j := i + 1
@@ -368,7 +397,7 @@ func runVoteScenario(t *testing.T, rec *chain.Recorder, idx int, sc *VScenario, 
 			}
 			rec.Emit(chain.Rec{"t": idx, "act": st.Act, "S": st.S, "id": orNil(st.ID), "key": orNil(st.Key), "val": orNil(st.Val),
 				"lst": st.Lst, "cand": orNil(st.Cand), "payee": orNil(st.Payee), "amt": st.Amt, "gap": h - w.lastH, "h": h,
-				"res": r.Res(), "ntf": nt, "obs": o, "bad": w.bad, "fault": r.Fault})
+				"res": r.Res(), "ntf": nt, "obs": o, "bad": w.bad, "fault": r.Fault, "x": st.X})
 			w.lastH = h
 		}
 	}
@@ -387,7 +416,7 @@ func randVoteScenario(r *rand.Rand) *VScenario {
 	sc := &VScenario{N: n, Src: "rand", StrangerCfg: r.Intn(3) == 0}
 	gaps := []int{0, 0, 0, 1, 1, 1, 2, 3, 10, 19, 20, 20, 21, 21, 22}
 	ids := []string{"i1", "i2", "i3"}
-	lists := [][]string{nil, {"k1"}, {"k2", "k1"}, {"k1", "k2", "k8", "k9"}, {}, {"k1", "bad"}}
+	lists := [][]string{nil, {"k1"}, {"k2", "k1"}, {"k1", "k2", "k8", "k9"}, {}, {"k1", "bad"}, {"k1", "k1"}, {"k2", "k1", "k2"}}
 	full := []string{}
 	for i := 1; i <= n; i++ {
 		full = append(full, keyName(i))
@@ -426,6 +455,9 @@ func randVoteScenario(r *rand.Rand) *VScenario {
 			continue
 		case k == 2:
 			camps[r.Intn(len(camps))] = newCampaign()
+		case k == 3 && r.Intn(2) == 0:
+			sc.Steps = append(sc.Steps, VStep{Act: "candBad", S: []string{[]string{"c1", "x1", keyName(1 + r.Intn(n))}[r.Intn(3)]}, Gap: gap})
+			continue
 		}
 		st := camps[r.Intn(len(camps))].st
 		st.Gap = gap
